@@ -27,7 +27,7 @@ def tiny_scope(chk):
     cfg = "ExpansionCases_" + chk.tier
     d = vlib.scratch("C18-emit")
     out = os.path.join(d, "cases.out")
-    res = vlib.tlc_ok(vlib.tlc("ExpansionCases", cfg=cfg, workers=16, stdout_path=out, timeout=3000, xmx="16g"), cfg)
+    res = vlib.tlc_ok(vlib.tlc("ExpansionCases", cfg=cfg, workers=16, stdout_path=out, timeout=3000, xmx="10g"), cfg)
     chk.add_tlc(res, "tlc enumeration of tiny expansion problems (" + cfg + ")")
     results, d2, allruns, exe = tracecheck.cases_and_validate(chk, "asan-ubsan", "record", out, cfg, module="TraceCircuit", extra_args=["timeout=60"])
     tracecheck.attribute(chk, results, "C18", exe, "expand", "asan-ubsan", d2)
@@ -49,7 +49,7 @@ def carry_model(chk):
     cfg = "ExpandImpl_" + chk.tier
     d = vlib.scratch("C18-carry")
     out = os.path.join(d, "finals.out")
-    res = vlib.tlc_ok(vlib.tlc("ExpandImpl", cfg=cfg, workers=16, coverage=True, stdout_path=out, timeout=3000, xmx="16g"), cfg)
+    res = vlib.tlc_ok(vlib.tlc("ExpandImpl", cfg=cfg, workers=16, coverage=True, stdout_path=out, timeout=3000, xmx="10g"), cfg)
     if res["violated"]:
         raise vlib.FrameworkError("ExpandImpl violates its own invariants: %s" % res["violated"])
     if res["coverage"].get("Step", [0, 0])[1] == 0:
